@@ -39,8 +39,19 @@ type Config struct {
 	Mem       bool  // in-memory backend
 	MaxPoint  int   // UserPlan.MaxPointSize
 	NoExtras  bool  // no unindexed fields
+	NIDs      int   // size of the id universe (0 = MaxID)
 	// EmptyStrings: indexed string values are drawn uniformly, "" included
 	EmptyStrings bool
+	// RareEmpty: "" appears with probability 1/150 per indexed string value
+	RareEmpty bool
+}
+
+// N is the size of the id universe of the configuration.
+func (c Config) N() int {
+	if c.NIDs > 0 {
+		return c.NIDs
+	}
+	return MaxID
 }
 
 const (
@@ -160,9 +171,25 @@ type Gen struct {
 	Cfg Config
 }
 
+// Coordinates (degrees) used with the haversine metric.
+var CoordPool = [][2]int{{0, 0}, {10, 20}, {-33, 151}, {51, 0}, {90, 0}, {-90, 0}, {0, 180}, {0, -180}, {45, -120}, {10, 21}}
+
 func (g *Gen) vec(dim int, metric string) ([]float32, []int) {
 	v := make([]float32, dim)
 	a := make([]int, dim)
+	switch metric {
+	case models.DistanceHaversine:
+		c := CoordPool[g.R.Intn(len(CoordPool))]
+		return []float32{float32(c[0]), float32(c[1])}, []int{c[0], c[1]}
+	case models.DistanceCosine:
+		// unit vectors only: the index's cosine is 1 - dot, which is the
+		// cosine distance exactly when both vectors have norm 1
+		k := g.R.Intn(dim)
+		sgn := 1 - 2*g.R.Intn(2)
+		v[k] = float32(sgn)
+		a[k] = sgn
+		return v, a
+	}
 	for i := range v {
 		var x int
 		switch metric {
@@ -187,7 +214,7 @@ func (g *Gen) strIdx() int {
 	if g.Cfg.EmptyStrings {
 		return g.R.Intn(len(StrPool))
 	}
-	if g.R.Intn(150) == 0 {
+	if g.Cfg.RareEmpty && g.R.Intn(150) == 0 {
 		return 0
 	}
 	return 1 + g.R.Intn(len(StrPool)-1)
